@@ -1,6 +1,5 @@
 import Cose.Msg.Model
 import Cose.Props.C04
-import Cose.Gen.Footprints
 /-!
 # C02 — tampered, spliced or mis-keyed signed/MACed messages never verify
 
@@ -139,36 +138,82 @@ theorem sign_first_signature_must_verify (m : Msg) (w : Wire) (s : SigObj) (rest
   simp [hv]
 
 
-/-! ## History freedom (regenerated facts about the message objects)
+/-- what it means for one COSE_Signature to have been checked: a verifier was found under its kid, its protected
+    algorithm agrees with that verifier's key, and the verifier accepted the signature over the Sig_structure built
+    from the signer's *received* protected bytes (or, for a message that was never on the wire, their encoding) -/
+def SigChecked (vs : List Verifier) (ext : Option Bytes) (w : Wire) (s : SigObj) : Prop :=
+  ∃ v spb tb, lookupVerifier vs s.kid = some v ∧ algMismatch s.prot v.key.alg = false ∧
+    (∀ raw, s.protRaw = some raw → spb = raw) ∧
+    tobe .sign w (some spb) ext = .ok tb ∧ v.verify tb (s.signature.getD []) = .ok ()
 
-The model's `verifyAuth` is a function of the decoded message, the key and the external data; a Go message object is
-mutable.  The facts below, re-extracted from the source on every run, are what makes the functional model faithful
-over *histories* of calls on one object (the correspondence op `msg.reuse` is the search that supports them):
-`UnmarshalCBOR` overwrites every field a later `Verify` reads, and `Verify` recomputes the to-be-signed bytes on every
-call — the cached copy (`toSign` / `toMac`) is only ever assigned and handed to the primitive, never read back. -/
+theorem verifySign_go_ok (vs : List Verifier) (ext : Option Bytes) (w : Wire) :
+    ∀ sigs, verifySign.go vs ext w sigs = .ok () → ∀ s ∈ sigs, SigChecked vs ext w s
+  | [], _, s, hs => by cases hs
+  | s0 :: rest, h, s, hs => by
+    simp only [verifySign.go] at h
+    cases hl : lookupVerifier vs s0.kid with
+    | none => simp [hl] at h
+    | some v =>
+      simp only [hl] at h
+      by_cases ha : algMismatch s0.prot v.key.alg = true
+      · simp [ha] at h
+      · have ha' : algMismatch s0.prot v.key.alg = false := by simpa using ha
+        simp only [ha', Bool.false_eq_true, if_false] at h
+        -- finish once the signer's protected bytes `spb` are known
+        have fin : ∀ spb, (∀ raw, s0.protRaw = some raw → spb = raw) →
+            (match tobe .sign w (some spb) ext with
+              | .ok tb => (match v.verify tb (s0.signature.getD []) with
+                  | .ok _ => verifySign.go vs ext w rest
+                  | .err e => .err e
+                  | .panic p => .panic p)
+              | .err e => .err e
+              | .panic p => .panic p) = .ok () → SigChecked vs ext w s := by
+          intro spb hraw h
+          cases htb : tobe .sign w (some spb) ext with
+          | err e => simp [htb] at h
+          | panic e => simp [htb] at h
+          | ok tb =>
+            simp only [htb] at h
+            cases hv : v.verify tb (s0.signature.getD []) with
+            | err e => simp [hv] at h
+            | panic e => simp [hv] at h
+            | ok u =>
+              simp only [hv] at h
+              rcases List.mem_cons.mp hs with rfl | hin
+              · exact ⟨v, spb, tb, hl, ha', hraw, htb, by rw [hv]⟩
+              · exact verifySign_go_ok vs ext w rest h s hin
+        cases hr : s0.protRaw with
+        | some b =>
+          simp only [hr] at h
+          exact fin b (fun raw hh => by rw [hr] at hh; cases hh; rfl) h
+        | none =>
+          simp only [hr] at h
+          cases hb : hdrBytes (some s0.prot) with
+          | ok b => simp only [hb] at h; exact fin b (fun raw hh => by rw [hr] at hh; cases hh) h
+          | err e => simp only [hb] at h; exact fin [] (fun raw hh => by rw [hr] at hh; cases hh) h
+          | panic e => simp only [hb] at h; exact fin [] (fun raw hh => by rw [hr] at hh; cases hh) h
 
-def fieldUses (meth field : String) : List String :=
-  (Footprints.footprints.filter (fun m => m.1 == meth)).flatMap (fun m => (m.2.2.filter (fun u => u.1 == field)).map (·.2))
-
-/-- `UnmarshalCBOR` of the four authenticated kinds assigns Protected, Unprotected, Payload and the retained wire
-    struct (and the recipients of a COSE_Mac): nothing of a previously decoded message survives -/
-theorem unmarshal_overwrites_everything_auth :
-    ["cose.Sign1Message", "cose.SignMessage", "cose.Mac0Message", "cose.MacMessage"].all (fun t =>
-      ["recv.Protected", "recv.Unprotected", "recv.Payload", "recv.mm"].all (fun f =>
-        (fieldUses (t ++ ".UnmarshalCBOR") f).contains "assigned")) = true
-    ∧ (fieldUses "cose.MacMessage.UnmarshalCBOR" "recv.recipients").contains "assigned" = true := by decide +kernel
-
-/-- `Verify` never reads a cached to-be-signed / to-be-MACed value: it assigns it and passes it to the primitive -/
-theorem verify_recomputes_tobe :
-    fieldUses "cose.Sign1Message.Verify" "recv.toSign" = ["arg:key.Verifier.Verify#0", "assigned"]
-    ∧ fieldUses "cose.Mac0Message.Verify" "recv.toMac" = ["arg:key.MACer.MACVerify#0", "assigned"]
-    ∧ fieldUses "cose.MacMessage.Verify" "recv.toMac" = ["arg:key.MACer.MACVerify#0", "assigned"]
-    ∧ fieldUses "cose.SignMessage.Verify" "recv.toSign" = [] := by decide +kernel
-
-/-- `Verify` writes nothing else: the decoded fields are read-only for it -/
-theorem verify_writes_only_the_cache :
-    ["cose.Sign1Message.Verify", "cose.SignMessage.Verify", "cose.Mac0Message.Verify", "cose.MacMessage.Verify"].all (fun m =>
-      ["recv.Protected", "recv.Unprotected", "recv.Payload", "recv.mm", "recv.recipients"].all (fun f =>
-        !(fieldUses m f).contains "assigned" && !(fieldUses m f).contains "addr")) = true := by decide +kernel
+/-- **COSE_Sign: verification succeeds only if every COSE_Signature of the message was checked** — each one against
+    the verifier found under *its own* kid, over *its own* received protected bytes.  Two entries sharing a kid are
+    two checks; none is skipped, whatever the order or number of entries. -/
+theorem sign_every_signature_checked (m : Msg) (vs : List Verifier) (ext : Option Bytes)
+    (h : verifySign m vs ext = .ok ()) :
+    ∃ w sigs, m.mm = some w ∧ w.sigs = some sigs ∧ sigs ≠ [] ∧ ∀ s ∈ sigs, SigChecked vs ext w s := by
+  unfold verifySign at h
+  by_cases hv : vs.isEmpty = true
+  · simp [hv] at h
+  · simp only [hv, Bool.false_eq_true, if_false] at h
+    cases hm : m.mm with
+    | none => simp [hm] at h
+    | some w =>
+      simp only [hm] at h
+      cases hs : w.sigs with
+      | none => simp [hs] at h
+      | some sigs =>
+        simp only [hs] at h
+        by_cases he : sigs.isEmpty = true
+        · simp [he] at h
+        · simp only [he, Bool.false_eq_true, if_false] at h
+          exact ⟨w, sigs, rfl, hs, by intro hnil; subst hnil; simp at he, verifySign_go_ok vs ext w sigs h⟩
 
 end Cose.Props.C02
